@@ -3,7 +3,7 @@
 # and passes without it; then copies patch.diff, demo.sh, NOTES.md into /verif/seeded/<ID>/ with meta.json
 id=$1; d=${2:-/tmp/mut/$id}; name=${3:-$id}
 cd $d || exit 2
-git stash -q 2>/dev/null; git checkout -q -- . 2>/dev/null; git apply patch.diff || { echo "$id: patch does not apply"; exit 2; }
+git checkout -q -- . 2>/dev/null; git apply patch.diff || { echo "$id: patch does not apply"; exit 2; }
 cmake -G Ninja -S $d -B $d/_build -DCMAKE_BUILD_TYPE=RelWithDebInfo >/dev/null 2>&1 && cmake --build $d/_build >/dev/null 2>&1 || { echo "$id: build failed"; exit 2; }
 tests=$(ctest --test-dir $d/_build -j8 --timeout 900 2>&1 | grep "tests passed")
 bash $d/demo.sh $d/_build >/dev/null 2>&1; with=$?
